@@ -15,7 +15,8 @@ ASSUMPTIONS = [
     "keys are abstract ids; the harness maps 8 (topic, partition, base) triples, some with ':' in the topic, to ids",
 ]
 NKEYS = 8
-BUILDS = {"h": ("root", "./cmd/verif_c09", ["C09"])}
+BUILDS = {"h": ("root", "./cmd/verif_c09", ["C09"]),
+          "race": ("root", "./cmd/verif_c09", ["C09"], {"race": True})}
 
 
 def gen_ops(rng, n, cap):
@@ -77,6 +78,9 @@ def run(ck):
     nops = 120 if ck.quick() else 300
     ck.cov["rule"] = ("op sequences (new/set/get) over 8 keys with sizes around the capacity, generated from VERIF_SEED; "
                       "a case is non-trivial when at least one eviction and one hit occur; distinct = distinct op files")
+    stress(ck, bins["race"])
+    if not ck.quick():
+        exhaustive(ck, binary)
     all_ops, bounds = [], []
     for i in range(ncases):
         cap = ck.rng.choice([1, 2, 3, 5, 8, 13, 16, 64, 100, 0, -4]) if i else 8
@@ -111,6 +115,55 @@ def run(ck):
             # hunt: the monitor already ran on this trace; widen with more seeds below
             _hunt(ck, binary)
             return
+
+
+def stress(ck, binary):
+    """Concurrent readers/writers under the race detector (testing; validates the atomic-step assumption)."""
+    ms = 1500 if ck.quick() else 15000
+    rc, out, err = ck.run_bin(binary, args=["stress", str(ms)], env={"GORACE": "halt_on_error=1"}, timeout=120)
+    ck.cov["stress"] = out.strip()
+    ck.cov["evaluations"] += 1
+    if "DATA RACE" in err:
+        ck.violation("data-race-in-segment-cache", "race detector reported a data race inside SegmentCache under concurrent set/get",
+                     {"cmd": "verif_c09 stress %d (built -race)" % ms, "stderr": err[-3000:]})
+    elif rc != 0 or not out.startswith("stress"):
+        ck.broke("stress run under -race", "rc=%s %s %s" % (rc, out[-300:], err[-1500:]))
+    else:
+        kv = dict(x.split("=") for x in out.split()[1:])
+        if int(kv["torn"]) > 0:
+            ck.violation("handed-out-bytes-mutated-concurrent", "a reader's slice changed (torn/overwritten payload) under concurrent set/get", {"cmd": "stress", "out": out})
+        if int(kv["overcap"]) > 0:
+            ck.violation("size-exceeds-capacity-concurrent", "bytes held exceeded capacity under concurrent set/get", {"cmd": "stress", "out": out})
+
+
+def exhaustive(ck, binary):
+    """thorough: every op sequence of length <= 5 over 2 keys x sizes {0,1,2,3}, capacity 3 (validation, not the proof)."""
+    import itertools
+    alpha = ["set %d %s" % (k, lib.hexs(bytes([0x10 * (k + 1) + sz] * sz))) for k in (0, 1) for sz in (0, 1, 2, 3)] + ["get 0", "get 1"]
+    ops = []
+    for n in (5,):
+        for seq in itertools.product(alpha, repeat=n):
+            ops.append("new 3"); ops.extend(seq)
+    impl, model, crash = run_case(ck, binary, ops, "exh")
+    if crash:
+        ck.broke("exhaustive small-scope run", crash); return
+    d = lib.first_diff(impl, model)
+    nseq = len(ops) // 6
+    ck.cov["exhaustive_small_scope"] = {"sequences": nseq, "alphabet": len(alpha), "length": 5, "capacity": 3}
+    ck.cov["evaluations"] += nseq
+    ck.cov["traces_validated_against_impl"] += nseq
+    mon = None
+    for i in range(nseq):
+        m = monitor(ops[i * 6:(i + 1) * 6], impl[i * 6:(i + 1) * 6])
+        if m:
+            mon = (i, m); break
+    if mon:
+        i, m = mon
+        ck.violation(m[1], m[2], {"ops": ops[i * 6:i * 6 + m[0] + 1], "actual": m[2]})
+    elif d is not None:
+        a = d - d % 6
+        ck.broke("correspondence model/implementation (exhaustive small scope)",
+                 "ops %r\nimpl : %r\nmodel: %r" % (ops[a:a + 6], impl[a:a + 6], model[a:a + 6]))
 
 
 def _fails(ck, binary, ops, fp):
